@@ -304,7 +304,7 @@ func Explore(m *Machine, starts []*State, multi bool, stats *ExploreStats, worke
 		m.applyBelow()
 		m.in.cls.rebuild()
 		ex.dis = map[string]Disagreement{}
-		if m.in.precisePrev && len(starts) > 0 {
+		if (m.in.precisePrev || ex.noRef) && len(starts) > 0 {
 			// superset view: dead fields are normalised (live.go)
 			if hs := m.enterWork(starts[0]); len(hs) > 0 {
 				m.computeLiveness(hs[0])
